@@ -1006,6 +1006,8 @@ class Qube(object):
             new_keys = set()
 
         for key in new_keys:
+            if key not in self._derivs_:    # as in without_derivs(preserve=...)
+                continue
             deriv = self._derivs_[key]
             new_deriv = deriv.clone(recursive=False,
                                     retain_cache=retain_cache)
